@@ -1,11 +1,11 @@
 #!/bin/bash
-# usage: tools/seed_matrix.sh [seed names...]   (default: all under /verif/seeded)
+# usage: [IDS="C01 C02"] [MX=/tmp/mx2] tools/seed_matrix.sh [seed names...]   (default: all seeds x all checks)
 # Runs every quick check against every seeded change in an isolated copy (/tmp/mx: a worktree of /repo's HEAD and a
 # copy of /verif whose harness points at that worktree), so /repo itself is never touched.  Appends lines
 #   <seed> <check> <rc> <first VIOLATION/INCONCLUSIVE line>
 # to /verif/seeded/RESULTS.tsv
 set -u
-MX=/tmp/mx
+MX=${MX:-/tmp/mx}
 rm -rf $MX/verif; mkdir -p $MX
 git -C /repo worktree remove --force $MX/repo >/dev/null 2>&1
 git -C /repo worktree add --detach $MX/repo HEAD >/dev/null 2>&1 || { echo "worktree failed"; exit 2; }
@@ -15,7 +15,7 @@ cd $MX/verif
 ./check --setup >/dev/null 2>&1
 SEEDS="$@"
 [ -z "$SEEDS" ] && SEEDS=$(ls /verif/seeded | grep -E '^C[0-9]+-[A-Z]$')
-IDS="C01 C02 C03 C04 C05 C06 C07 C08 C09 C10 C11 C12 C13 C14 C15 C16 C17 C18"
+IDS="${IDS:-C01 C02 C03 C04 C05 C06 C07 C08 C09 C10 C11 C12 C13 C14 C15 C16 C17 C18}"
 OUT=/verif/seeded/RESULTS.tsv
 for s in $SEEDS; do
   git -C $MX/repo apply /verif/seeded/$s/patch.diff 2>/dev/null || { echo -e "$s\t-\tNOAPPLY\t" >> $OUT; continue; }
